@@ -84,6 +84,14 @@ def roundtrip(x, p):
                 x.assume(And(s[k] != 34, s[k] != 92, s[k] != 10,
                              s[k] != 13))
             code = [b'x="' + s + b'"' + nl]
+        elif kind == 'dunder':
+            # a code line that begins like a section header but is not one
+            t = x.bytes('tail', 1)
+            for k in range(n):
+                x.assume(Or(And(s[k] >= 97, s[k] <= 122), s[k] == 95,
+                            And(s[k] >= 48, s[k] <= 57)))
+            x.assume(Or(And(t[0] >= 97, t[0] <= 122), t[0] == 32))
+            code = [b'__' + s + b'__' + t + b'=1' + nl, b'y=2' + nl]
         else:
             for k in range(n):
                 x.assume(Or(s[k] >= 128, And(s[k] >= 97, s[k] <= 122)))
@@ -157,6 +165,7 @@ HARNESSES = [
             quick=[dict(Q, code='comment', ncode=1, maxver=8),
                    dict(Q, code='string', ncode=1, maxver=8),
                    dict(Q, code='ident', ncode=1, maxver=8),
+                   dict(Q, code='dunder', ncode=1, maxver=8),
                    dict(Q, code='comment', ncode=1, crlf=True,
                         final_nl=False, maxver=8)],
             thorough=[dict(Q, code=c, ncode=2, maxver=8, _budget=1800)
